@@ -1,6 +1,6 @@
 #!/usr/bin/env python3
 """C01: command-line values reach their typed destinations, whatever the spelling."""
-import os, sys
+import os, sys, collections
 sys.path.insert(0, os.path.dirname(os.path.abspath(__file__)))
 from argcommon import *
 
@@ -10,13 +10,14 @@ def run(tier):
     exe = driver("asan")
     # M: all spellings of all lines of the bounded family agree with the declarative meaning (AgreesInv)
     # 20: value arguments (DEST_VAR_VALUE) sharing a variable, 21: pair arguments (DEST_PAIR)
+    # 24, 25: value mode 'command' (keyed / positional): the rest of the command line is the value, evaluation stops there
     if tier == "quick":
-        cfgs, beh = model_behaviours(c, tier, cfgsel=[1, 2, 4, 7, 13, 20, 21])
+        cfgs, beh = model_behaviours(c, tier, cfgsel=[1, 2, 4, 7, 13, 20, 21, 24, 25])
     else:
         # three uses per line for two configurations, two uses for the others (the whole family with three uses is
         # tens of millions of spellings: outside the thorough budget)
         cfgs, beh = model_behaviours(c, tier, cfgsel=[1, 7], maxuses=3)
-        cfgs2, beh2 = model_behaviours(c, tier, cfgsel=[2, 4, 13, 20, 21], maxuses=2)
+        cfgs2, beh2 = model_behaviours(c, tier, cfgsel=[2, 4, 13, 20, 21, 24, 25], maxuses=2)
         beh += beh2
     # R: every spelling of every VALID line of the model through the real handler
     script = os.path.join(c.wd, "replay.ndjson")
@@ -37,6 +38,24 @@ def run(tier):
             for _ in range(nspell):
                 acts.append(eval_action(g.spell_line(cfg, line), tag={"k": "line", "line": line_json(line)}))
         blocks.append((cfg, acts))
+    # T2: value mode 'command': keyed (short / long / abbreviated key) and positional, the text contains words that look like
+    # keys of the handler; plus the documented refusal (key inside a group of short keys) and the cases left open (nothing
+    # behind the key, "--key=...")
+    kinds = collections.Counter()
+    for k in range(60 if tier == "quick" else 1500):
+        cfg = g.cfg(nargs=g.r.randint(1, 5), constraints=True, cmd=("key", "key", "pos")[k % 3], exclude=arggen.GROWBITS)
+        acts = []
+        for _ in range(nlines):
+            line = gen_valid(g, cfg)
+            if line is None:
+                continue
+            for _ in range(3):
+                acts.append(eval_action(g.spell_line(cfg, line), tag={"k": "line", "line": line_json(line)}))
+            for kind, words in arggen.sub_mutations(g, cfg, line):
+                kinds[kind] += 1
+                acts.append(eval_action(words, tag={"k": "mut", "m": kind}))
+        blocks.append((cfg, acts))
+    c.notes.append("T2 (command mode): refusals / open cases generated: %s" % dict(kinds))
     script2 = os.path.join(c.wd, "random.ndjson")
     write_cases(script2, blocks)
     rej, tr = run_script(c, exe, script2, "T")
